@@ -124,13 +124,24 @@ func (f *MapField) GenReadFrom() (string, error) {
 				{{.M.KeyField.GenReadFrom}}
 				typ := enc.TLNum(0)
 				l := enc.TLNum(0)
-				{{call .GenTlvNumberDecode "typ"}}
-				{{call .GenTlvNumberDecode "l"}}
-				if l > enc.TLNum(reader.Length()-reader.Pos()) {
-					return nil, enc.ErrFailToParse{TypeNum: typ, Err: io.ErrUnexpectedEOF}
-				}
-				if typ != {{.M.ValField.TypeNum}} {
-					return nil, enc.ErrFailToParse{TypeNum: {{.M.KeyField.TypeNum}}, Err: enc.ErrUnrecognizedField{TypeNum: typ}}
+				for {
+					{{call .GenTlvNumberDecode "typ"}}
+					{{call .GenTlvNumberDecode "l"}}
+					if l > enc.TLNum(reader.Length()-reader.Pos()) {
+						return nil, enc.ErrFailToParse{TypeNum: typ, Err: io.ErrUnexpectedEOF}
+					}
+					if typ == {{.M.ValField.TypeNum}} {
+						break
+					}
+					// An unrecognized element between the key and its value is treated like
+					// anywhere else in the block: skipped unless it is critical. Another key
+					// means that the value is missing.
+					if typ == {{.M.KeyField.TypeNum}} || (!ignoreCritical && {{.IsCritical}}) {
+						return nil, enc.ErrFailToParse{TypeNum: {{.M.KeyField.TypeNum}}, Err: enc.ErrUnrecognizedField{TypeNum: typ}}
+					}
+					if err = reader.Skip(int(l)); err != nil {
+						return nil, enc.ErrFailToParse{TypeNum: typ, Err: err}
+					}
 				}
 				{{.M.ValField.GenReadFrom}}
 				_ = value
@@ -144,9 +155,11 @@ func (f *MapField) GenReadFrom() (string, error) {
 	g.executeTemplate(templ, struct {
 		M                  *MapField
 		GenTlvNumberDecode func(string) (string, error)
+		IsCritical         string
 	}{
 		M:                  f,
 		GenTlvNumberDecode: GenTlvNumberDecode,
+		IsCritical:         IsCriticalExpr,
 	})
 	return g.output()
 }
